@@ -37,6 +37,8 @@ V("C03", "merge without species filter", "R03.4", (SBC, "final_indices = set(tar
 V("C03", "species-blind matching", "R03.1", (GEO, "                if closest_atomic_number == atomic_number:\n                    match = closest_index\n                    substitution = None\n                else:\n", "                match = closest_index\n                if closest_atomic_number != atomic_number:\n"))
 V("C03", "twin: >= in the running maximum", "silent", (SBC, "                    if n_near > max_near:", "                    if n_near >= max_near:"))
 # ------------------------------------------------------------------------------------------ C04
+V("C04", "periodic-vector counter used as cell-axis number (D19 regression)", "R04.10", (PFD, "i_factor[periodic_axes[i_per_span]] = 1", "i_factor[i_per_span] = 1"))
+V("C04", "empty copy list reaches the averaging (D16 regression)", "R04.3", (PFD, "            if len(scaled_pos) != 0 and len(scaled_pos) >= 1 / 3 * max_occurrence:", "            if len(scaled_pos) >= 1 / 3 * max_occurrence:"))
 V("C04", "3D builder averages the wrapped copies without unwrapping", "R04.3", (PFD, "                final_pos = scaled_pos - displacement\n", "                final_pos = scaled_pos\n"))
 V("C04", "2D builder averages without unwrapping", "R04.3", (PFD, "                scaled_pos[:, 0:2] = final_pos_2d\n", "                scaled_pos[:, 0:2] = scaled_pos_2d\n"))
 V("C04", "element appended outside the occurrence filter", "R04.3", (PFD, "                group_avg = np.mean(final_pos, axis=0)\n                averaged_rel_pos.append(group_avg)\n                averaged_rel_num.append(group_num)\n", "                group_avg = np.mean(final_pos, axis=0)\n                averaged_rel_pos.append(group_avg)\n            averaged_rel_num.append(group_num)\n"))
@@ -50,6 +52,20 @@ V("C04", "reduction drops the thickest direction", "R04.4", (PFD, "reduced_dimen
 V("C04", "reduced cell minimised along the wrong axis", "R04.4", (PFD, "                    proto_cell = matid.geometry.get_minimized_cell(\n                        proto_cell, 2, 2 * self.pos_tol\n                    )", "                    proto_cell = matid.geometry.get_minimized_cell(\n                        proto_cell, 0, 2 * self.pos_tol\n                    )"))
 V("C04", "minimised cell discarded", "R04.4", (PFD, "                    proto_cell = matid.geometry.get_minimized_cell(\n                        proto_cell, 2, 2 * self.pos_tol\n                    )", "                    matid.geometry.get_minimized_cell(\n                        proto_cell, 2, 2 * self.pos_tol\n                    )"))
 V("C04", "id without the 2D flag", "R04.6", (SYM, "        if self.n_pbc == 2:\n", "        if self.n_pbc == 5:\n"))
+# ------------------------------------------------------------------------------------------ C18
+V("C18", "smallest region wins", "R18.4", (CLS, "                        if n_basis > most_atoms:", "                        if n_basis < most_atoms:"))
+V("C18", "first found region returned", "R18.4", (CLS, "                        if n_basis == n_atoms:\n                            return region", "                        if n_basis > 0:\n                            return region"))
+V("C18", "only the first tolerance is tried", "R18.4", (CLS, "                        if n_basis > most_atoms:\n                            most_atoms = n_basis\n                            best_region = region\n", "                        if n_basis > most_atoms:\n                            most_atoms = n_basis\n                            best_region = region\n                    break\n"))
+V("C18", "region search always from the first seed", "R18.4", (CLS, "                        system,\n                        index,\n                        size,\n                        tol,", "                        system,\n                        seed_indices[0],\n                        size,\n                        tol,"))
+V("C18", "twin: >= keeps the later of equally large regions", "silent", (CLS, "                        if n_basis > most_atoms:", "                        if n_basis >= most_atoms:"))
+V("C18", "seeds farthest from the centre of mass", "R18.5", (CLS, "indices = np.argsort(dist)", "indices = np.argsort(-dist)"))
+V("C18", "species never struck off: every atom becomes a seed", "R18.5", (CLS, "                        seed_indices.append(i)\n                        elems.remove(i_elem)", "                        seed_indices.append(i)"))
+V("C18", "centre of mass of the unwrapped input", "R18.5", (CLS, "cm = matid.geometry.get_center_of_mass(test_sys)", "cm = matid.geometry.get_center_of_mass(input_system)"))
+V("C18", "direction connected on +d or -d", "R18.6", (LUN, "                if positive and negative:\n                    dir_to_remove.add(direction)", "                if positive or negative:\n                    dir_to_remove.add(direction)"))
+V("C18", "-d test dropped", "R18.6", (LUN, "                    if np.array_equal(multiplier, -dir_vector):\n                        negative = True", "                    if np.array_equal(multiplier, dir_vector):\n                        negative = True"))
+V("C18", "Surface for 2D regions", "R18.3", (CLS, "                    if best_region.is_2d:", "                    if not best_region.is_2d:"))
+V("C18", "substituted atoms become members", "R18.1", (LUN, "                for index in unit.basis_indices:\n                    if index is not None:\n                        indices.add(index)",
+   "                for index in unit.basis_indices:\n                    if index is not None:\n                        indices.add(index)\n                for sub in unit.substitutions:\n                    if sub is not None:\n                        indices.add(sub.index)"))
 # ------------------------------------------------------------------------------------------ C01
 V("C01", "alias instead of copy", "R01.1", (SBC, "system_copy = system.copy()", "system_copy = system"))
 V("C01", "wrap the argument", "R01.1", (SBC, "        # Positions are wrapped\n        system_copy.wrap()",
@@ -97,6 +113,7 @@ V("C01", "radii not given to get_distances", "R01.9", (SBC, "distances = matid.g
 V("C01", "angle_tol dropped", "R01.9", (SBC, "PeriodicFinder(angle_tol=angle_tol)", "PeriodicFinder()"))
 
 # ------------------------------------------------------------------------------------------ C08
+V("C08", "hard-coded plausibility tolerance in the solver (D18 regression)", "R08.13", (SYM, "np.dot(W, M) + C, R, cell, precision", "np.dot(W, M) + C, R, cell, 1e-3"))
 V("C08", "solver back to own component", "R08.2", (SYM, "W[idx] = R[icomp] - C[icomp]", "W[idx] = R[idx] - C[idx]"))
 V("C08", "twin: solver mixes components (equivalent on every tabulated position: constants agree)", "silent", (SYM, "W[idx] = R[icomp] - C[icomp]", "W[idx] = R[icomp] - C[idx]"))
 V("C08", "twin: scaled solver", "silent", (SYM, "W[idx] = R[icomp] - C[icomp]", "W[idx] = (R[icomp] - C[icomp]) / M[idx][icomp]"))
@@ -168,6 +185,8 @@ V("C19", "custom array rescaled", "R19.3", (GEO, "        radii = radii[atomic_n
 V("C19", "consumer inspects the preset", "R19.4", (GEO, "    radii_1x = get_radii(radii, num_1x)\n", "    radii_1x = get_radii(radii, num_1x)\n    if isinstance(radii, str) and radii == \"vdw\":\n        cluster_threshold = cluster_threshold * 1.0\n"))
 
 # ------------------------------------------------------------------------------------------ C20
+V("C20", "vectorised wrap with untyped flags as column index", "R20.2", (GEO, "    if wrap:\n        for i, periodic in enumerate(pbc):\n            if periodic:\n                fractional[:, i] %= 1.0\n", "    if wrap:\n        fractional[:, pbc] %= 1.0\n"))
+V("C20", "twin: vectorised wrap with a boolean mask", "silent", (GEO, "    if wrap:\n        for i, periodic in enumerate(pbc):\n            if periodic:\n                fractional[:, i] %= 1.0\n", "    if wrap:\n        fractional[:, np.asarray(pbc, dtype=bool)] %= 1.0\n"))
 V("C20", "centre of mass folded into the cell in all directions", "R20.5", (GEO, "com_cart = to_cartesian(cell, rel_com)[0, :]", "com_cart = to_cartesian(cell, rel_com, wrap=True, pbc=True)[0, :]"))
 V("C20", "twin: centre of mass folded along the periodic directions only", "silent", (GEO, "com_cart = to_cartesian(cell, rel_com)[0, :]", "com_cart = to_cartesian(cell, rel_com, wrap=True, pbc=pbc)[0, :]"))
 V("C20", "extent from the orthogonal projection", "R20.4", (GEO, "    c_size = np.linalg.norm(c_real_cart)\n", "    heights = np.dot(system.get_positions(), c_norm)\n    c_size = heights.max() - heights.min()\n"))
@@ -186,6 +205,9 @@ V("C20", "to_cartesian transposed", "R20.5", (GEO, "cartesian_positions = np.dot
 V("C20", "complete_cell not normalised", "R20.6", (GEO, "    c_norm = c / np.linalg.norm(c)\n    c_norm = c_norm[None, :]", "    c_norm = c\n    c_norm = c_norm[None, :]"))
 
 # ------------------------------------------------------------------------------------------ C17
+V("C17", "empty copy list reaches the averaging (D16 regression)", "R17.7", (PFD, "            if len(scaled_pos) != 0 and len(scaled_pos) >= 1 / 3 * max_occurrence:", "            if len(scaled_pos) >= 1 / 3 * max_occurrence:"))
+V("C17", "strict smallest-cell filter in the 2D basis search (D17 regression)", "R17.7", (PFD, "smallest_cells_filter = areas <= (1 + self.cell_size_tol) * smallest_area", "smallest_cells_filter = areas < (1 + self.cell_size_tol) * smallest_area"))
+V("C17", "twin: emptiness tested by truthiness", "silent", (PFD, "            if len(scaled_pos) != 0 and len(scaled_pos) >= 1 / 3 * max_occurrence:", "            if scaled_pos and len(scaled_pos) >= 1 / 3 * max_occurrence:"))
 V("C17", "absolute tolerances assigned only inside the relative branch (D13 regression)", "R17.5",
   (CLS, "        # Absolute tolerances are used as given\n        if self.pos_tol_mode == \"absolute\":\n            self.abs_pos_tol = self.pos_tol\n", "        if self.pos_tol_mode == \"absolute\" and self.delaunay_threshold_mode == \"relative\":\n            self.abs_pos_tol = self.pos_tol\n"))
 V("C17", "twin: absolute tolerance assigned before the statistics block", "silent",
